@@ -3,3 +3,27 @@
 pub uninterp spec fn completed(cs: Seq<Energy>, carrier: Carrier) -> Seq<Energy>;
 pub uninterp spec fn aux_assigned(cs: Seq<Energy>) -> Option<Seq<Energy>>;
 pub open spec fn sorted_by_id(cs: Seq<Energy>) -> bool { forall|i: int, j: int| 0 <= i <= j < cs.len() ==> e_id(cs[i]) <= e_id(cs[j]) }
+
+// ---- veclistsum: element-wise sum of a list of series, missing elements count as 0
+pub open spec fn ls_get(l: Seq<f32>, i: int) -> real { if 0 <= i < l.len() { rv(l[i]) } else { 0real } }
+pub open spec fn ls_maxlen(ls: Seq<&[f32]>, n: int) -> nat decreases n {
+    if n <= 0 { 0 } else { let m = ls_maxlen(ls, n - 1); if ls[n - 1]@.len() >= m { ls[n - 1]@.len() } else { m } }
+}
+pub open spec fn ls_sum(ls: Seq<&[f32]>, n: int, i: int) -> real decreases n {
+    if n <= 0 { 0real } else { ls_sum(ls, n - 1, i) + ls_get(ls[n - 1]@, i) }
+}
+pub proof fn lemma_ls_maxlen_bound(ls: Seq<&[f32]>, n: int)
+    requires 0 <= n <= ls.len(),
+    ensures forall|j: int| 0 <= j < n ==> (#[trigger] ls[j])@.len() <= ls_maxlen(ls, n),
+    decreases n,
+{
+    if n > 0 { lemma_ls_maxlen_bound(ls, n - 1); }
+}
+/// beyond the longest series seen so far the running sum is 0 (with a 1-element start vector: index 0 is 0 before the first series)
+pub proof fn lemma_ls_sum_beyond(ls: Seq<&[f32]>, n: int, i: int)
+    requires 0 <= n <= ls.len(), i >= ls_maxlen(ls, n), i >= 0,
+    ensures ls_sum(ls, n, i) == 0real,
+    decreases n,
+{
+    if n > 0 { lemma_ls_sum_beyond(ls, n - 1, i); }
+}
